@@ -7,6 +7,7 @@ import (
 	"errors"
 	"fmt"
 	"strconv"
+	"time"
 
 	"github.com/gregoryv/mq"
 
@@ -25,7 +26,7 @@ func init() { register(c11{}) }
 func (c11) ID() string    { return "C11" }
 func (c11) Level() string { return "exploration" }
 func (c11) Rule() string {
-	return "packets of the C01 domain, biased towards CONNECT with 2..6 will properties and SUBSCRIBE/SUBACK/UNSUBACK (the encoders that range over maps); per packet 16 (quick) / 64 (thorough) encodings with a random interleaving of String, Dump, WellFormed, a full accessor sweep and the decoding of unrelated frames elsewhere in the program in between: all encodings byte-identical, accessor snapshot unchanged after every operation. The same seeded packets are encoded again in 3 (quick) / 8 (thorough) sets of separate worker processes (other map hash seeds) and the SHA-256 digests compared per packet. distinct = (packet signature, interleaving of read-only operations); non-trivial = at least one optional field present"
+	return "packets of the C01 domain, biased towards CONNECT with 2..6 will properties and SUBSCRIBE/SUBACK/UNSUBACK (the encoders that range over maps); per packet 16 (quick) / 64 (thorough) encodings with a random interleaving of String, Dump, WellFormed, a full accessor sweep and the decoding of unrelated frames elsewhere in the program in between: all encodings byte-identical, accessor snapshot unchanged after every operation. The same seeded packets are encoded again in 3 (quick) / 8 (thorough) sets of separate worker processes (other map hash seeds) and the SHA-256 digests compared per packet. One case encodes 400 built and decoded packets again after pauses of 1.2 s and 2.2 s of wall-clock time. distinct = (packet signature, interleaving of read-only operations); non-trivial = at least one optional field present"
 }
 func (c11) Assumptions() []string {
 	return []string{"C01 domain", "Dump writes to a harness-owned buffer; WellFormed is called where the packet type has it"}
@@ -44,6 +45,7 @@ func (c11) Phases(env run.Env) []run.Phase {
 	for i := 0; i < passes; i++ {
 		out = append(out, run.Phase{Name: "other-process-" + strconv.Itoa(i+1), N: n})
 	}
+	out = append(out, run.Phase{Name: "after-a-pause", N: 1})
 	return out
 }
 
@@ -70,7 +72,69 @@ func digest(b []byte) string {
 	return hex.EncodeToString(h[:12])
 }
 
+// c11Pause encodes built and decoded packets, lets 1.2 s (and then 2.2 s more)
+// of wall-clock time pass, and encodes them again: time is no input of WriteTo.
+func c11Pause(c *run.Ctx) {
+	r := rng(c.Env, "C11pause", 0, 0)
+	type item struct {
+		a *ref.Packet
+		p mq.Packet
+		b []byte
+	}
+	var items []item
+	for i := 0; i < 400; i++ {
+		a := gen.Random(r, gen.Domain{})
+		if i%3 == 0 { // the time-related properties above all
+			t := gen.Pick(r, ref.TPublish, ref.TConnect, ref.TConnAck, ref.TDisconnect)
+			m := gen.RandomMask(r, t)
+			for j := 0; j < gen.NumOpt(t); j++ {
+				switch gen.OptName(t, j) {
+				case "p02", "p11", "will.p02", "will.p18", "will", "p13", "keepalive":
+					m |= 1 << uint(j)
+				}
+			}
+			a = gen.Packet(r, t, m, gen.Small, gen.Domain{})
+		}
+		p, err := bind.Build(a)
+		if err != nil {
+			continue
+		}
+		b, _, werr, pan := libEncode(p)
+		if werr != nil || pan != nil {
+			continue
+		}
+		items = append(items, item{a, p, b})
+		if res := libRead(b); res.Accepted() { // and the same packet as a peer would receive it
+			if b2, _, werr, pan := libEncode(res.Pkt); werr == nil && pan == nil {
+				items = append(items, item{a, res.Pkt, b2})
+			}
+		}
+	}
+	for round, pause := range []time.Duration{1200 * time.Millisecond, 2200 * time.Millisecond} {
+		for waited := time.Duration(0); waited < pause; waited += 200 * time.Millisecond {
+			time.Sleep(200 * time.Millisecond)
+			c.Tick()
+		}
+		for _, it := range items {
+			b, _, werr, pan := libEncode(it.p)
+			c.Eval(1)
+			if pan != nil || werr != nil || !bytes.Equal(b, it.b) {
+				c.Violation("C11/differs-after-a-pause/"+tname(int(it.a.Type)), fmt.Sprintf("the same packet is encoded differently %.1f s later", (pause+time.Duration(round)*1200*time.Millisecond).Seconds()),
+					replayDetail(it.a, it.b, map[string]interface{}{"later": hexClip(b, 2048)}))
+				return
+			}
+		}
+	}
+	c.Distinct(run.Hash64("pause", strconv.Itoa(len(items))), true)
+	c.Distinct(run.Hash64("pause-2"), true)
+	c.Sample(map[string]interface{}{"packets": len(items), "pauses_s": []float64{1.2, 2.2}, "what": "built and decoded packets encoded again after wall-clock time has passed"})
+}
+
 func (c11) Run(c *run.Ctx, phase, idx int) {
+	if ph := (c11{}).Phases(c.Env); phase == len(ph)-1 {
+		c11Pause(c)
+		return
+	}
 	a := c11Packet(c.Env, idx)
 	T := tname(int(a.Type))
 	pkt, err := bind.Build(a)
